@@ -288,7 +288,9 @@ fn pnet_case(check: &Check, rng: &mut Rng) {
     let sent_a: Vec<u8> = wa.iter().flat_map(|(c, _)| c.clone()).collect();
     let sent_b: Vec<u8> = wb.iter().flat_map(|(c, _)| c.clone()).collect();
     let read_sizes: Vec<usize> = (0..8).map(|_| *rng.pick(&[1usize, 2, 5, 64, 1000, 1024, 4096, 65536])).collect();
-    let side = |end: vmon::pipe::End, script: Vec<(Vec<u8>, bool)>, reads: Vec<usize>, tx: vmon::pipe::DirCtl, cap: Option<usize>| async move {
+    // `limit`: number of payload bytes the peer will send; a reader that gets more than that stops (a sender that
+    // re-sends forever would otherwise grow `got` without bound) and the excess is reported below
+    let side = |end: vmon::pipe::End, script: Vec<(Vec<u8>, bool)>, reads: Vec<usize>, tx: vmon::pipe::DirCtl, cap: Option<usize>, limit: usize| async move {
         let out = PnetConfig::new(psk).handshake(end).await.map_err(|e| format!("handshake: {e}"))?;
         tx.set_capacity(cap);
         let (mut r, mut w) = out.split();
@@ -313,20 +315,32 @@ fn pnet_case(check: &Check, rng: &mut Rng) {
                     break;
                 }
                 got.extend_from_slice(&buf[..n]);
+                if got.len() > limit {
+                    return Err(format!("excess: read {} bytes although the peer wrote only {limit}", got.len()));
+                }
             }
             Ok::<_, String>(got)
         };
-        let (w, r) = futures::future::join(writer, reader).await;
-        w?;
-        r
+        futures::future::try_join(writer, reader).await.map(|((), got)| got)
     };
     let witness = || json!({"schedules": desc, "capacity_a2b": ca, "capacity_b2a": cb, "a_script": wa.iter().map(|(c, f)| json!([c.len(), f])).collect::<Vec<_>>(),
         "b_script": wb.iter().map(|(c, f)| json!([c.len(), f])).collect::<Vec<_>>(), "read_sizes": read_sizes, "key_hex": hex(&key)});
-    let fut = futures::future::join(side(a, wa.clone(), read_sizes.clone(), a2b.clone(), ca), side(b, wb.clone(), read_sizes.clone(), b2a.clone(), cb));
+    let fut = futures::future::join(side(a, wa.clone(), read_sizes.clone(), a2b.clone(), ca, sent_b.len()), side(b, wb.clone(), read_sizes.clone(), b2a.clone(), cb, sent_a.len()));
     let poll_budget = 2_000_000 + 400 * (sent_a.len() + sent_b.len()) as u64;
     match catch(|| drive(fut, poll_budget)) {
         Err(p) => check.violation(format!("panic@{}", p.site()), format!("pnet panicked: {}", p.msg), witness()),
-        Ok(Driven::Stalled) => check.violation("pnet-stream-stalls", "written and closed, but the peer's read never completes (logical deadlock, no outstanding waker)", witness()),
+        Ok(Driven::Stalled) => {
+            let mut resent = false;
+            for (who, ctl, sent) in [("a-to-b", &a2b, &sent_a), ("b-to-a", &b2a, &sent_b)] {
+                if ctl.written() > 24 + sent.len() as u64 {
+                    resent = true;
+                    check.violation("pnet-wire-bytes-exceed-payload", format!("{who}: {} bytes on the wire for {} payload bytes + 24 nonce bytes", ctl.written(), sent.len()), witness());
+                }
+            }
+            if !resent {
+                check.violation("pnet-stream-stalls", "written and closed, but the peer's read never completes (logical deadlock, no outstanding waker)", witness())
+            }
+        }
         Ok(Driven::Budget) => {
             // logical, not temporal: a stream cipher puts exactly one byte on the wire per payload byte (after the
             // 24-byte nonce); more than that means bytes were re-sent
